@@ -268,7 +268,7 @@ def plan(tier, seed, switches):
         return [("exhaustive", [dict(part=k, nparts=8, switches=switches) for k in range(8)]),
                 ("campaign", [dict(seed=seed * 100 + k, n=250, switches=switches) for k in range(4)])]
     return [("exhaustive", [dict(part=k, nparts=8, switches=switches) for k in range(8)]),
-            ("campaign", [dict(seed=seed * 1000 + k, n=12000, switches=switches) for k in range(8)])]
+            ("campaign", [dict(seed=seed * 1000 + k, n=2500, switches=switches) for k in range(16)])]
 
 
 def evidence_extra(stats):
